@@ -217,7 +217,7 @@ Proof. vm_compute. reflexivity. Qed.
     pointer under the release policy *)
 Example C09_ctor_legacy_D12_refuted :
   let cfg := {| hash := HFast; placement := PVector; indirect := false |} in
-  match outcome (ctor_with TOther true cfg (ex_st cfg) ex_sp_lvalue) with
+  match outcome (ctor_with TOther CkAlways cfg (ex_st cfg) ex_sp_lvalue) with
   | Ok p => deref (ex_st cfg) p = None
   | _ => False end.
 Proof. vm_compute. reflexivity. Qed.
@@ -226,9 +226,9 @@ Proof. vm_compute. reflexivity. Qed.
     pointer (release), "unknown class shared_ptr<K2>" (debug) *)
 Example C09_final_legacy_refuted :
   (let cfg := {| hash := HFast; placement := PVector; indirect := false |} in
-   match outcome (final_with TOther true cfg (ex_st cfg) ex_sp_final_lvalue) with
+   match outcome (final_with TOther CkAlways cfg (ex_st cfg) ex_sp_final_lvalue) with
    | Ok p => deref (ex_st cfg) p = None
    | _ => False end) /\
   (let cfg := {| hash := HChecked; placement := PVector; indirect := false |} in
-   outcome (final_with TOther true cfg (ex_st cfg) ex_sp_final_lvalue) = Error (UnknownClass 102%N)).
+   outcome (final_with TOther CkAlways cfg (ex_st cfg) ex_sp_final_lvalue) = Error (UnknownClass 102%N)).
 Proof. vm_compute. split; reflexivity. Qed.
